@@ -12,6 +12,11 @@
 //verif:replace github.com/celestiaorg/celestia-node/share.EmptyEDSRoots github.com/celestiaorg/celestia-node/store.verifEmptyRoots
 //verif:replace github.com/celestiaorg/celestia-node/share.EmptyEDS github.com/celestiaorg/celestia-node/store.verifEmptyEDS
 //verif:replace github.com/celestiaorg/celestia-node/share.NewAxisRoots github.com/celestiaorg/celestia-node/store.verifNewAxisRoots
+//verif:pkgs ./share/ipld
+//verif:replace github.com/celestiaorg/celestia-node/share/ipld.GetProof github.com/celestiaorg/celestia-node/store.verifGetProof
+//verif:replace (*github.com/celestiaorg/celestia-node/share/ipld.ProofsAdder).VisitFn github.com/celestiaorg/celestia-node/store.verifVisitFn
+//verif:replace (*github.com/celestiaorg/celestia-node/share/ipld.ProofsAdder).Proofs github.com/celestiaorg/celestia-node/store.verifAdderProofs
+//verif:assume the proof-caching wrapper's NMT node collection and proof extraction (share/ipld: CID-keyed node maps) are stubs - its per-axis caching logic, tree construction over the ideal hash and share selection are executed; the proof inside a served sample is not inspected here (C01)
 //verif:bound crash during a store operation: one block (ODS width 2; 2 or 4 filled shares) or the empty block; operation = PutODSQ4, PutODS, put of the empty block, RemoveODSQ4 or RemoveQ4 after a complete put; the process dies before ANY one of the first 8 file-system mutations of the operation (file creation, each write, link, each removal) - the crashing write may be torn (half of its bytes persisted) - or not at all; ODS and Q4 files are written by two goroutines in either order (1 scheduling deviation); then restart (NewStore on the same directory), lookup, re-put, re-remove
 //verif:assume file system = package veriffs model; a crash keeps exactly the mutations that completed before it (no reordering of completed writes by the OS: fsync semantics are outside the model - the store itself never calls Sync)
 //verif:outside squares needing several buffered writes (64 KiB buffer: ODS width >= 16), loss of completed-but-unsynced writes on power failure, recent-block cache > 0
@@ -21,12 +26,17 @@ import (
 	"context"
 	"errors"
 
+	"github.com/ipfs/boxo/blockservice"
+	"github.com/ipfs/go-cid"
+
 	"github.com/celestiaorg/celestia-app/v9/pkg/da"
 	libshare "github.com/celestiaorg/go-square/v4/share"
+	"github.com/celestiaorg/nmt"
 	"github.com/celestiaorg/rsmt2d"
 
 	"github.com/celestiaorg/celestia-node/share"
 	"github.com/celestiaorg/celestia-node/share/eds"
+	"github.com/celestiaorg/celestia-node/share/ipld"
 	"github.com/celestiaorg/celestia-node/share/shwap"
 	"github.com/celestiaorg/celestia-node/store/file"
 	"github.com/celestiaorg/celestia-node/veriffs"
@@ -48,6 +58,12 @@ func verifHashOfTag(tag byte) []byte {
 func verifEmptyHash() share.DataHash               { return verifHashOfTag(0xEE) }
 func verifEmptyRoots() *share.AxisRoots            { return verifEmptyRootsV }
 func verifEmptyEDS() *rsmt2d.ExtendedDataSquare { return verifEmptySq }
+
+func verifGetProof(ctx context.Context, g blockservice.BlockGetter, root []byte, shareIdx, total int) (nmt.Proof, error) {
+	return nmt.NewInclusionProof(shareIdx, shareIdx+1, nil, true), nil
+}
+func verifVisitFn(a *ipld.ProofsAdder) nmt.NodeVisitorFn      { return nil }
+func verifAdderProofs(a *ipld.ProofsAdder) map[cid.Cid][]byte { return nil }
 
 // roots of an in-memory square (the in-memory accessor recomputes them): the
 // roots the harness committed for that square
@@ -95,6 +111,12 @@ func verifReadsCorrect(acc eds.AccessorStreamer, cells [][]libshare.Share, k int
 	nd.Assert(err == nil && len(ar.RowRoots) == 2*k, "served-block-is-complete-and-correct")
 	for i := range ar.RowRoots {
 		nd.Assert(nd.And(nd.EqBytes(ar.RowRoots[i], roots.RowRoots[i]), nd.EqBytes(ar.ColumnRoots[i], roots.ColumnRoots[i])), "served-block-is-complete-and-correct")
+	}
+	// samples first: the proof-caching wrapper fills its per-axis cache on this
+	// path, and everything read afterwards must still be the stored block
+	for _, c := range []shwap.SampleCoords{{Row: 0, Col: k}, {Row: 2*k - 1, Col: 0}} {
+		s, err := acc.Sample(ctx, c)
+		nd.Assert(err == nil && nd.EqBytes(s.Share.ToBytes(), cells[c.Row][c.Col].ToBytes()), "served-block-is-complete-and-correct")
 	}
 	for _, axis := range []rsmt2d.Axis{rsmt2d.Row, rsmt2d.Col} {
 		for idx := 0; idx < 2*k; idx++ {
